@@ -91,7 +91,12 @@ fn render_enum(it: &Value) -> Vec<String> {
         let fields = if i == 0 && it["fields"] == true { "(a: int32)" } else { "" };
         ens.push(if explicit { format!("N{}{} = {}", i + 1, fields, val) } else { format!("N{}{}", i + 1, fields) });
     }
-    vec![format!("module M\ntypealias MyByte = uint8\n{kw} E{under} {{ {} }}\n", ens.join(", "))]
+    // enumerator values are per enum: a well-formed enum that ends at the largest value of the same range comes first
+    let before = match u {
+        "none" | "optuint8" | "aliasuint8" | "bool" | "float32" | "float64" | "string" => format!("unchecked enum Before {{ W = {} }}", bounds("none").1),
+        p => format!("unchecked enum Before : {p} {{ W = {max} }}"),
+    };
+    vec![format!("module M\ntypealias MyByte = uint8\n{before}\n{kw} E{under} {{ {} }}\n", ens.join(", "))]
 }
 
 const KEY_PRELUDE: &str = "module M\ncompact struct CsOk { a: int32, b: string }\ncompact struct CsBad { a: float64 }\ncompact struct CsNestedBad { a: CsBad }\n\
